@@ -16,6 +16,13 @@ def run(chk, replay=None):
         cfg = cl.gen_cfg_async(rnd, max_nodes=3 if quick else 4)
         ne = 2 if quick else rnd.choice([1, 2, 3])
         steps = [max(3, cfg["steps"] - 2 * i) for i in range(ne)]
+        if g % 4 == 2:
+            # a node that runs 8-16 times between two supervisor steps
+            names = sorted(cfg["nodes"]); sup = cfg["sup"]
+            fast = next(n for n in names if n != sup)
+            cfg["nodes"][sup]["period"] = 32; cfg["nodes"][fast]["period"] = 2
+            cfg["nodes"][fast]["delays"] = [0, 1, 1, 2, 5]; cfg["nodes"][sup]["delays"] = [min(d, 20) for d in cfg["nodes"][sup]["delays"]]
+            steps = [3 for _ in range(ne)]
         if g % 2 == 1:
             # short episodes with wide windows: entries still unfilled (negative seq = default output) when the horizon ends
             steps = [rnd.choice([3, 4, 5]) for _ in range(ne)]
